@@ -247,7 +247,7 @@ func IsSameV1alpha1WorkloadRefGVKName(a, b *appsv1alpha1.WorkloadRef) bool {
 	if a == nil || b == nil {
 		return false
 	}
-	return reflect.DeepEqual(a, b)
+	return schema.FromAPIVersionAndKind(a.APIVersion, a.Kind).GroupKind() == schema.FromAPIVersionAndKind(b.APIVersion, b.Kind).GroupKind() && a.Name == b.Name
 }
 
 func GetContextFromv1alpha1Rollout(rollout *appsv1alpha1.Rollout) *validateContext {
